@@ -235,6 +235,8 @@ def run_tu(files, exists, entry_file, include_dirs, defines, forced=(), canon=os
         tgt = r.resolve(inc, os.path.dirname(entry_file), False)
         if tgt is not None and tgt in files:
             r.process(tgt)
+        elif tgt is None:
+            r.events.append(("missing-forced", entry_file, inc))      # gcc: fatal error; the analysis: one warning
     r.process(entry_file)
     return r
 
